@@ -78,7 +78,8 @@ PROBES = ["start_while_starting", "start_while_stopping", "stop_while_starting",
           "queue_start", "queue_start_wq", "burst", "trigger_while_stopping", "trigger_while_active",
           "stop_by_own_device", "refused_game_mode", "priority_override", "switch_while_active", "var_flip_while_active",
           "game_started", "game_ended", "ball_started", "game_drain", "game_add_player_request", "game_end_request",
-          "ball_end_with_game_mode_active", "registry_compared_in_game", "registry_after_game_mode_stop",
+          "ball_end_with_game_mode_active", "delayed_control_event_in_active", "delayed_control_event_in_stopping",
+          "stop_with_delayed_control_event_pending", "registry_compared_in_game", "registry_after_game_mode_stop",
           "registry_compared_after_game"]
 REAL = ["mpf.core.mode.Mode", "mpf.core.mode_controller.ModeController", "mpf.core.config_player.ConfigPlayer and the "
         "event/variable/light/show/coil/queue_relay players", "mpf.core.mode_device / logic blocks / timers / combo_switch",
@@ -106,16 +107,24 @@ TRIGGERS = {
     "players": ["ev_trigger", "ev_cond", "ev_inner", "ev_delayed", "ev_var", "ev_var_block", "ev_var_cond", "ev_light",
                 "ev_light_off", "ev_show", "ev_show_stop", "ev_chirp", "ev_coil_on", "ev_coil_off", "ev_coil_pulse",
                 "Q:q_in", "q_relay_done", "plain_gate_open"],
-    "dev": ["dev_hit", "dev_hit", "dev_hit2", "dev_cnt_enable", "dev_cnt_disable", "dev_cnt_restart", "dev_acc_1",
+    "dev": ["dev_hit", "dev_hit", "dev_hit2", "dev_cnt_enable", "dev_cnt_disable", "dev_cnt_restart", "dev_cnt_reset",
+            "dev_hit2_late", "dev_acc_reset", "dev_acc_disable", "dev_cnt_enable", "dev_cnt_reset", "dev_acc_1",
             "dev_acc_2", "dev_t_pause", "dev_t_add", "dev_t_restart", "dev_t_stop", "dev_t_start", "dev_t_reset",
             "dev_t2_start", "dev_t2_jump"],
     "coded": ["coded_ping", "coded_later", "coded_later", "coded_watch"],
     # redundant enables/restarts on shots that are already enabled are the point of these
     "gshots": ["gs_enable", "gs_enable", "gs_disable", "gs_restart", "gs_restart", "gs_reset", "gs_advance", "gs_hit",
-               "gs2_enable", "gsg_enable", "gsg_disable", "gsg_restart", "gsg_reset", "gsg_rotate", "gs_count",
+               "gs2_enable", "gs_disable_late", "gs_reset_late", "gsg_restart_late", "gs_cnt_reset", "gs2_enable",
+               "gsg_enable", "gsg_disable", "gsg_restart", "gsg_reset", "gsg_rotate", "gs_count",
                "gs_t_restart", "gs_t_pause"],
 }
 ALL_TRIGGERS = sorted(set(sum(TRIGGERS.values(), [])))
+# device control events with a delay (event -> (mode, delay in s)): the call is scheduled on the mode's delay manager and has
+# to die with the mode
+DELAYED = {"dev_cnt_enable": ("dev", 0.15), "dev_cnt_restart": ("dev", 0.1), "dev_cnt_reset": ("dev", 0.5),
+           "dev_hit2_late": ("dev", 0.3), "dev_acc_reset": ("dev", 0.4), "dev_acc_disable": ("dev", 0.2),
+           "gs2_enable": ("gshots", 0.1), "gs_disable_late": ("gshots", 0.25), "gs_reset_late": ("gshots", 0.4),
+           "gsg_restart_late": ("gshots", 0.3), "gs_cnt_reset": ("gshots", 0.5)}
 SWITCHES = ["s_code", "s_code", "s_left", "s_right", "s_misc"]
 GAME_SWITCHES = ["s_shot1", "s_shot1", "s_shot2", "s_shot3"]
 GAME_OPS = [("g_drain", 5), ("g_add_player", 1), ("g_end", 1), ("g_start", 1.5)]
@@ -208,6 +217,11 @@ def plan(ch, tier):
         else:
             op["when"] = ["timer", ch.choice("timer_idx", 4), ch.pick("timer_delta", [0.0, 0.0, -0.001, 0.001])]
         ops.append(op)
+        if op["op"] == "trigger" and op["event"] in DELAYED and ch.flag("late_stop", 0.5):
+            # stop the owning mode while the delayed control event is pending (or exactly when it is due)
+            owner, delay = DELAYED[op["event"]]
+            ops.append({"op": "req", "kind": "stop", "mode": owner, "via": ch.pick("late_via", ["direct", "event"]),
+                        "when": ["rel", ch.pick("late_dt", [0.0, 0.001, 0.01, 0.05, delay - 0.001, delay])]})
     if game:
         gops = [{"op": "g_start", "when": ["rel", ch.pick("g.dt0", [0.05, 0.0, 0.3])]}]
         for _ in range(ch.choice("g.n", 7)):
@@ -323,6 +337,7 @@ def execute(ctx, plan):
     in_request = [0]
     last_life = [0.0]
     stopped_at = {n: [] for n in TEST_MODES}
+    pending_delayed = []    # (mode, due time) of delayed control events posted while their mode was running
     after_stop_check = []
 
     def now():
@@ -370,6 +385,8 @@ def execute(ctx, plan):
         last_life[0] = now()
         s["count"][phase] += 1
         if phase == "stopped":
+            if any(mn == n and due > now() + 1e-9 for mn, due in pending_delayed):
+                ctx.probe("stop_with_delayed_control_event_pending")
             s["cycles"] += 1
             stopped_at[n].append(now())
             # "after every completed stop": look at the registries at the first later instant (see R3)
@@ -631,6 +648,9 @@ def execute(ctx, plan):
                     ctx.probe("trigger_while_stopping")
                 elif st[n]["last"] == "started":
                     ctx.probe("trigger_while_active")
+        if e in DELAYED and st[DELAYED[e][0]]["last"] in ("started", "will_stop", "stopping"):
+            ctx.probe("delayed_control_event_in_" + ("stopping" if st[DELAYED[e][0]]["last"] != "started" else "active"))
+            pending_delayed.append((DELAYED[e][0], now() + DELAYED[e][1]))
         ctx.log("trigger", origin, e, t=now())
         if e.startswith("Q:"):
             tok, cb = new_token("queue_trigger", "players")
